@@ -30,7 +30,7 @@ import (
 // sub-command `sched`: program worker like `run`, with a concurrency limit for method-body
 // checking (checker.MethodCheckConcurrencyLimit) and a schedule seed for hook H1 per request.
 func init() {
-	hx.RegisterExec("fe", execForeach)
+	hx.RegisterExec("fore", execForeach)
 	hx.RegisterSub("sched", schedWorker)
 }
 
